@@ -122,6 +122,11 @@ def step (s : St) (line : String) : St × String :=
     | some (some p) => (s, "load=" ++ showLoad (GenesisFile.loadAt s.disk (p + 1)))
     | _ => (s, "bad-op")
   | _ =>
+    -- `cmd=<n>` / `at=<n>` (which command object / which home) do not matter to the model, but a
+    -- malformed number is a malformed op on both sides
+    let malformed := fun k => (o.get? k).map String.toNat? == some none
+    if (o.verb = "load" && malformed "cmd") ||
+       ((o.verb = "save" || o.verb = "savex") && (malformed "cmd" || malformed "at")) then (s, "bad-op") else
     let (D, out) := stepCfg s.D o
     ({ s with D := D }, out)
 
